@@ -24,7 +24,8 @@ REQUIRED_COUNTERS = ['tables_checked', 'parents_checked',
                      'pairs_coverage_checked', 'pairs_short_of_target',
                      'pairs_without_markers', 'differential_runs',
                      'pipeline_tables_checked', 'override_runs',
-                     'override_names_parent_without_pairs']
+                     'override_names_parent_without_pairs',
+                     'tables_with_a_256_pair_parent']
 RULE = ('case = reference-marker table (synthesised from random up / down '
         'tables: dense, sparse, pairs with no marker, pairs short of the '
         'target in one or both directions; or produced by the pipeline) x '
@@ -47,7 +48,8 @@ def gen_cases(tier, seed):
         cases.append({'seed': int(rng.integers(2 ** 31)),
                       'source': 'pipeline' if i % 8 == 7 else 'synthetic',
                       'override_mode': ('moot-parents' if i % 4 == 1
-                                        else None)})
+                                        else None),
+                      'shape': ('256-pairs' if i % 20 == 2 else None)})
     return cases
 
 
@@ -220,7 +222,39 @@ def run_case(spec, work):
     ctx = Ctx()
     tmp = work / 'tmp'
     tmp.mkdir()
-    if spec['source'] == 'synthetic':
+    if spec['source'] == 'synthetic' and spec.get('shape') == '256-pairs':
+        # a parent with exactly 256 leaf pairs (two children of 16 leaves
+        # each) in a taxonomy of 561 pairs, every one of its pairs marked
+        # by one gene of its own: each pair needs exactly that gene
+        sixteen = tuple(() for _ in range(16))
+        forest = ((sixteen, sixteen), (((), ()),))
+        model = gen.build_from_shape(forest, 3, rng)
+        k = 34
+        n_genes = 300
+        genes = gen.gene_names(rng, n_genes)
+        n_pairs = k * (k - 1) // 2
+        up = np.zeros((n_pairs, n_genes), dtype=bool)
+        down = np.zeros((n_pairs, n_genes), dtype=bool)
+        top = [nd for nd in model.nodes[model.hierarchy[0]]
+               if len(model.leaves_under(model.hierarchy[0], nd)) == 32][0]
+        subs = model.children(model.hierarchy[0], top)
+        la = set(model.leaves_under(model.hierarchy[1], subs[0]))
+        lb = set(model.leaves_under(model.hierarchy[1], subs[1]))
+        priv = 0
+        for row, (a, b) in enumerate(itertools.combinations(
+                sorted(model.leaves), 2)):
+            if (a in la and b in lb) or (a in lb and b in la):
+                (up if priv % 2 else down)[row, priv] = True
+                priv += 1
+            else:
+                m = rng.random(n_genes - 256) < 0.05
+                half = rng.random(n_genes - 256) < 0.5
+                up[row, 256:] = m & half
+                down[row, 256:] = m & ~half
+        assert priv == 256
+        klass = 'private-gene-per-pair'
+        ctx.bump('tables_with_a_256_pair_parent')
+    elif spec['source'] == 'synthetic':
         d = int(rng.integers(1, 5))
         k = int(rng.integers(2, 10))
         model = gen.build_from_shape(gen.random_forest(rng, d, k), d, rng)
@@ -228,6 +262,7 @@ def run_case(spec, work):
         genes = gen.gene_names(rng, n_genes)
         n_pairs = k * (k - 1) // 2
         up, down, klass = synth_tables(rng, n_pairs, n_genes)
+    if spec['source'] == 'synthetic':
         path = work / 'refm.h5'
         write_marker_file(path, model.leaves, genes, up, down,
                           model.leaf_level)
@@ -260,6 +295,8 @@ def run_case(spec, work):
     n_genes = len(genes)
     # query: subset of the reference genes plus foreign genes, shuffled
     keep = rng.random(n_genes) < float(rng.choice([0.4, 0.7, 1.0]))
+    if spec.get('shape') == '256-pairs':
+        keep[:] = True
     if not keep.any():
         keep[0] = True
     query = [g for g, kp in zip(genes, keep) if kp] + \
@@ -303,6 +340,8 @@ def run_case(spec, work):
     gat = int(rng.choice([1, 1, 2, 5]))
     cutoffs = [0, 3, 10 ** 7]
     cutoff = int(cutoffs[int(rng.integers(3))])
+    if spec.get('shape') == '256-pairs':
+        cutoff = 10 ** 7          # the 256-pair parent on the reduced table
     what = (f'source={spec["source"]} class={klass} '
             f'leaves={len(model.leaves)} genes={n_genes} '
             f'query={len(query)} target={target} override={override} '
